@@ -204,7 +204,13 @@ func Run(s *simrt.Sim) {
 	for n, k := range parseCanon(c.sets[0]) {
 		initUsers[n] = c.keys[k]
 	}
-	fs.Put(rig.Path, rig.Doc(initUsers, 0))
+	if len(initUsers) == 0 && s.GenChance(128) {
+		// a freshly provisioned store: an empty file (it loads as an empty user set)
+		fs.Put(rig.Path, nil)
+		s.Probe("c20.initial-zero-byte-store")
+	} else {
+		fs.Put(rig.Path, rig.Doc(initUsers, 0))
+	}
 
 	kindName := [...]string{"fault", "shutdown", "power"}[kind]
 	s.Param("kind", kindName)
